@@ -2,7 +2,7 @@
 from runner import Ob
 
 KI = dict(INT=1, INTLIST=2, STR=3, STRLIST=4, BOOL=5, FLOATLIST=6, SECT=7, SECM=8, SEC=9)
-OP = dict(SETN=1, WRONGTYPE=2, SETLIST=3, ADDLIST=4, SETMULTI=5, ADDTSEC=6, RMNSEC=7, RMTSEC=8, SETOPT_TEXT=9, SETNINT_VETO=10)
+OP = dict(SETN=1, WRONGTYPE=2, SETLIST=3, ADDLIST=4, SETMULTI=5, ADDTSEC=6, RMNSEC=7, RMTSEC=8, SETOPT_TEXT=9, SETNINT_VETO=10, SETNSTR_VETO=11, SETNFLOAT_VETO=12)
 
 
 def _ob(tag, op, kind, nv, n=1, extra=(), checks="none", chk=()):
@@ -60,4 +60,9 @@ def api_obs(tag, chk, ops=None, checks="none", tier="quick"):
         add("SETOPT_TEXT", "INTLIST", nv)
     add("SETNINT_VETO", "INT", 1)
     add("SETNINT_VETO", "INT", 0)
+    # the veto of the string and float setters, at every index (replace, append, illegal), NULL string included
+    add("SETNSTR_VETO", "STR", 1)
+    add("SETNSTR_VETO", "STRLIST", 0)
+    add("SETNSTR_VETO", "STRLIST", 2)
+    add("SETNFLOAT_VETO", "FLOATLIST", 2)
     return obs
